@@ -9,6 +9,26 @@ props = [json.loads(l) for l in open(os.path.join(ROOT, 'properties.jsonl'))]
 NA = {
     'C07': 'full period 2^n-1 is a closed number-theoretic theorem about the reference transition (primitivity of its characteristic polynomial; needs the factorisation of 2^n-1 up to n=512): no contract on a function of /repo expresses or decides it; the code-dependent residue is decided elsewhere: the step equals the reference T (C01/C04), T is injective and maps only 0 to 0 so a non-zero state never steps to zero (lemmas *_injective / *_zero_only_from_zero under C08), no seeding path yields zero (C08) (DESIGN.md section 8)',
 }
+TECH = {
+ 'C01': 'Verus contracts on the real next_*/from_seed of the 15 generators against reference spec functions',
+ 'C02': 'Verus contracts on step_p/step_q/generate/sixteen_steps/init against Wu\'s HC-128 spec; forwarding obligations for the BlockRng newtype; Kani on rand_core BlockRng',
+ 'C03': 'Verus contracts on ind/rngstep/generate/mix/init against Jenkins\' ISAAC spec; forwarding obligations; Kani (from_seed layout, BlockRng)',
+ 'C04': 'Verus contracts on XorShiftRng::next_u32/from_seed against xor128',
+ 'C05': 'Verus trait-level stream-projection contracts on every generator + rand_core impls verified generically; Kani function-level proofs on rand_core BlockRng/BlockRng64; forwarding obligations',
+ 'C06': 'Verus loop invariants on the real jump()/long_jump() against poly(T, J_ref) + Verus-verified executable checker for J_ref(T) == T^(2^k)',
+ 'C08': 'Verus contracts on from_seed/seed_from_u64/XorShift redraw loop + lemmas (never zero, injective); Kani harnesses on the defaulted from_rng/try_from_rng of every type',
+ 'C09': 'Verus contracts on seed_from_u64 (xoshiro family, ISAAC); Kani harnesses with recording sources for from_rng/try_from_rng of every type and PCG32 expansion; forwarding obligations',
+ 'C10': 'Verus contracts on clone/eq of every generator and core (== iff all state equal; every operation determines result and final state from the old state)',
+ 'C11': 'Kani: bincode round trip through the real serde derive output for an arbitrary state of each of the 16 small generators; bounded native sweep for IsaacRng/Isaac64Rng',
+ 'C12': 'Verus contracts on every function of the JitterRng collector against the Jitterentropy step spec (timer readings existentially quantified)',
+ 'C13': 'Verus contract on test_timer over the ghost log of its 400 probes',
+ 'C14': 'Verus built-in obligations (overflow, index, shift, division, panics as callee preconditions) in every function under contract',
+ 'C15': 'Verus lemmas (explicit inverses, bit-peeling induction, affine-linearity on a basis) over the spec functions the code is proved equal to',
+ 'C16': 'Verus contracts on JitterRng next_u32/next_u64/fill_bytes/clone over the pending-half flag',
+ 'C17': 'frame obligation on rustc\'s expansion (Debug bodies do not read self) + Kani: formatted text of an arbitrary state equals the literal',
+ 'C18': 'Verus built-in obligations (no check can fire) + per-function identity of rustc\'s expansion across {debug assertions} x {serde}',
+ 'C19': 'frame obligations on rustc\'s expansion (no static / interior-mutable / ambient state in any function) + Send/Sync obligations discharged by rustc',
+}
 PENDING = 'check not built yet (build in progress; see DESIGN.md section 5)'
 checks = []
 na = []
@@ -25,7 +45,7 @@ for p in props:
             engine=s.get('engine', 'verus+kani contracts'),
             level_claimed=dict(category=s.get('level', 'proof'), text=s.get('explanation', ''), design_ref=s.get('design_ref', 'DESIGN.md section 5 ' + pid)),
             level_note='; '.join(s.get('trusted_base', []) + s.get('assumptions', [])),
-            technique=s.get('technique', 'contract-based deductive verification (Verus contracts woven onto the rustc-expanded real code; Kani for dependency glue)'),
+            technique=s.get('technique', TECH.get(pid, 'contract-based deductive verification')),
         ))
     else:
         na.append(dict(property_id=pid, reason=NA.get(pid, PENDING)))
